@@ -193,6 +193,10 @@ def prove(pm, generated, changed, tier, scratch):
     return res
 
 
+class HarnessTimeout(Exception):
+    """Infrastructure time-out: exit 2 (neither pass nor violation)."""
+
+
 def run_lean_driver(driver, lines, lean_dir=LEAN, shards=8):
     """Pipe case lines through the Lean driver (sharded); returns output lines."""
     if not lines:
@@ -208,8 +212,15 @@ def run_lean_driver(driver, lines, lean_dir=LEAN, shards=8):
     import threading
     results = [None] * shards
 
+    budget = float(os.environ.get("VERIF_MODEL_TIMEOUT", "1500"))
+
     def feed(i, p, ch):
-        o, e = p.communicate("\n".join(ch) + "\n")
+        try:
+            o, e = p.communicate("\n".join(ch) + "\n", timeout=budget)
+        except subprocess.TimeoutExpired:
+            p.kill()
+            results[i] = ([], "timeout", -9)
+            return
         results[i] = (o.splitlines(), e, p.returncode)
     ths = [threading.Thread(target=feed, args=(i, p, ch)) for i, (p, ch) in enumerate(zip(procs, chunks))]
     for t in ths:
@@ -219,6 +230,8 @@ def run_lean_driver(driver, lines, lean_dir=LEAN, shards=8):
     outs = [None] * len(lines)
     for i, ch in enumerate(chunks):
         o, e, rc = results[i]
+        if rc == -9 and e == "timeout":
+            raise HarnessTimeout("Lean driver %s did not finish within %.0f s" % (driver, budget))
         if rc != 0 or len(o) != len(ch):
             raise RuntimeError("Lean driver failed (rc=%s, %d/%d lines): %s" % (rc, len(o), len(ch), e[-2000:]))
         for j, line in enumerate(o):
@@ -394,6 +407,9 @@ def main(pm, argv):
     try:
         build.activate(scratch)
         return _main(pm, args, tier, seed, prop, t0, scratch)
+    except HarnessTimeout as e:
+        log("[%s] TIMEOUT (exit 2): %s" % (prop, e))
+        return 2
     finally:
         build.cleanup(scratch)
 
@@ -491,6 +507,8 @@ def _main(pm, args, tier, seed, prop, t0, scratch):
                 for (i, c), o in zip(sel, outs):
                     if o.strip() != impl[i][0].strip():
                         disagreements.append({"case": c, "impl": impl[i][0], "model": o})
+            except HarnessTimeout:
+                raise
             except Exception as e:
                 corr_error = str(e)
     corr_ok = not disagreements and corr_error is None
